@@ -40,7 +40,9 @@ ASSUMPTIONS = [
 ]
 DEFAULT = b"abcd1234"
 REACTIONS = ["accept", "refuse", "swerr", "comm", "ack-lost", "timeout"]
-FILE_FAULTS = [None, "open", "write"]
+# "dir-no-create": the PIN file itself may be rewritten, but no entry may be created in, renamed
+# into or removed from its directory (a file bind-mounted alone, a root-owned directory)
+FILE_FAULTS = [None, "open", "write", "dir-no-create"]
 CRASHES = [None, "unlock", "newpin_rx", "newpin_applied", "file_open_w", "file_write",
            "file_written"]
 ALNUM = set((string.ascii_letters + string.digits).encode())
@@ -167,12 +169,29 @@ def run_start(w, pf, op, platform):
     def fopen(path, mode="r", *a, **k):
         if w.dead:
             raise Dead()
-        if "w" in mode:
+        if any(ch in mode for ch in "wxa+"):
             hook("file_open_w")
             if ff == "open":
                 raise OSError(30, "Read-only file system")
+            if ff == "dir-no-create" and not (os.path.exists(path) and
+                                              os.path.samefile(path, pf)):
+                raise PermissionError(13, "Permission denied")
         return F(real_open(path, mode, *a, **k))
+
+    class DirLockedOs:
+        """`os` as ledger.pin sees it when the directory of the PIN file is not writable."""
+
+        def __getattr__(s, name):
+            if name in ("replace", "rename", "renames", "link", "symlink", "unlink", "remove",
+                        "mkdir", "makedirs"):
+                def refuse(*a, **k):
+                    raise PermissionError(13, "Permission denied")
+                return refuse
+            return getattr(os, name)
     lpin.open = fopen
+    saved_os = getattr(lpin, "os", None)
+    if ff == "dir-no-create" and saved_os is not None:
+        lpin.os = DirLockedOs()
     mw.install(w)
     Platform.set(Platform.LEDGER if platform == "Ledger" else Platform.SGX)
     res = {"out": None, "pin_obj": None, "events": events}
@@ -202,6 +221,8 @@ def run_start(w, pf, op, platform):
             res["out"] = "crash"      # whatever a dying process raises is irrelevant
     finally:
         del lpin.open
+        if saved_os is not None:
+            lpin.os = saved_os
         Platform.set(Platform.LEDGER)
         w.hook = None
     if w.dead:
@@ -255,7 +276,11 @@ def run_case(c):
         # between the device's acknowledgement and the write. Without such an interruption the
         # same end state is a different defect. Reported after the other clauses of this start.
         lost = adopted and (file_after is None or file_after != dev_after)
-        interrupted = op["crash_at"] is not None or op["file_fault"] is not None or \
+        # (a directory that takes no new entries interrupts nothing when the file is already
+        # there: rewriting it needs no right over the directory)
+        interrupted = op["crash_at"] is not None or \
+            op["file_fault"] in ("open", "write") or \
+            (op["file_fault"] == "dir-no-create" and file_before is None) or \
             op["reaction"] in ("ack-lost", "comm", "timeout")
         if lost and not interrupted:
             raise Violation("pin-lost-without-any-fault", "%s: device PIN is now %r, PIN file "
@@ -311,7 +336,8 @@ def run_case(c):
 def reconnect_cases(tier, seed):
     out = []
     for plat, file0, reaction, ff in itertools.product(
-            ["Ledger", "SGX"], ["absent", "present-forced"], REACTIONS, FILE_FAULTS):
+            ["Ledger", "SGX"], ["absent", "present-forced"], REACTIONS,
+            [None, "open", "write"]):
         out.append({"platform": plat, "file0": file0, "reaction": reaction, "file_fault": ff})
     return out
 
@@ -401,7 +427,8 @@ def run_reconnect(c):
         if not policy_ok(pnew):
             raise Violation("generated-pin-violates-policy", "%s: %r" % (where, pnew))
     lost = adopted and (file_after is None or file_after != dev_after)
-    interrupted = c["file_fault"] is not None or c["reaction"] in ("ack-lost", "comm", "timeout")
+    interrupted = c["file_fault"] in ("open", "write") or \
+        c["reaction"] in ("ack-lost", "comm", "timeout")
     if lost and not interrupted:
         raise Violation("pin-lost-without-any-fault", "%s: device PIN %r, file %r" % (
             where, dev_after, file_after))
